@@ -824,6 +824,52 @@ func (Prop) Run(c *engine.Ctx) {
 		}
 	}
 
+	// ---- MAC E2: sparse messages. The content patterns above never have an all-zero 32-bit word in front of a non-zero
+	// one; a message with a single bit set does, at every word of the buffered tail: every bit length x every position of
+	// the one set bit within the last 160 bits (the final 128-bit block and the word before it) and the very first bit.
+	sparseMax := 400
+	if !quick {
+		sparseMax = 1100
+	}
+	for _, mv := range macVariants {
+		mv := mv
+		c.Case(fmt.Sprintf("mac/sparse-single-bit/%s/0..%d", mv.name, sparseMax), func(t *engine.T) {
+			col := newCollector()
+			defer col.flush(t)
+			h := mv.new(0)
+			msg := make([]byte, (sparseMax+7)/8)
+			for nbits := 1; nbits <= sparseMax; nbits++ {
+				nb := (nbits + 7) / 8
+				lo := nbits - 160
+				if lo < 0 {
+					lo = 0
+				}
+				pos := []int{}
+				if lo > 0 {
+					pos = append(pos, 0)
+				}
+				for p := lo; p < nbits; p++ {
+					pos = append(pos, p)
+				}
+				for _, p := range pos {
+					msg[p/8] = 0x80 >> uint(p%8)
+					want := mv.ref(0, msg[:nb], nbits)
+					var got []byte
+					if t.Guard("mac/"+mv.name+"/finish", func() { got = h.Finish(append([]byte{}, msg[:nb]...), nbits) }) {
+						return
+					}
+					t.Eval(1)
+					if !bytes.Equal(got, want) {
+						col.add(mv.mismatchKey(nbits), nbits, fmt.Sprintf("[%s key0] Finish(zero message with bit %d set, %d) = %x, reference %x", mv.name, p, nbits, got, want))
+					}
+					msg[p/8] = 0
+				}
+				t.Nontrivial(fmt.Sprintf("macsparse/%s/%d", mv.name, nbits%128))
+			}
+			t.Sample(map[string]any{"mac": mv.name, "messages": "exactly one bit set, at every position of the last 160 bits and at bit 0", "nbits": fmt.Sprintf("1..%d", sparseMax)})
+		})
+	}
+
 	// ---- MAC E2: every 2-partition of every byte length
 	maxBytes := 80
 	if !quick {
